@@ -29,6 +29,13 @@ class E:
     __slots__ = ("text", "kind", "val", "prec", "nops", "syms")
 
     def __init__(self, text, kind, val, prec, nops=0, syms=()):
+        # every intermediate value must stay well inside the range of finite doubles (and of int64 for integers)
+        if val is not None:
+            if isinstance(val, int):
+                if abs(val) >= 2 ** 62:
+                    raise Reject("int range")
+            elif not (abs(val) < mp.mpf("1e150")) or (val != 0 and abs(val) < mp.mpf("1e-150")):
+                raise Reject("magnitude")
         self.text, self.kind, self.val, self.prec, self.nops, self.syms = text, kind, val, prec, nops, frozenset(syms)
 
 
@@ -63,7 +70,8 @@ class Gen:
     # ------------------------------------------------------------------ names
     def fresh(self, prefix=None):
         for _ in range(100):
-            base = prefix or self.r.choice(["a", "b", "x", "y", "alpha", "beta", "th", "phi", "n", "m", "k", "r_1", "Val", "zz", "u2", "ab", "a1"])
+            base = prefix or self.r.choice(["a", "b", "x", "y", "alpha", "beta", "th", "phi", "n", "m", "k", "r_1", "Val", "zz", "u2", "ab", "a1",
+                                            "forx", "int_1", "pix", "sinx", "Truex", "e", "E1", "j", "J", "qq", "p_", "inn", "name1", "typeA", "I", "A_0_0"])
             nm = base if self.r.random() < 0.6 else base + str(self.r.randrange(10))
             if nm not in self.used_names and nm not in RESERVED and not (nm[0] == "q" and nm[1:].isdigit()) \
                     and not (nm[0] == "p" and nm[1:].isdigit()) and not nm.startswith("Measure"):
@@ -74,6 +82,8 @@ class Gen:
     # ------------------------------------------------------------------ literals
     def int_lit(self, lo=0, hi=12):
         v = self.r.randint(lo, hi)
+        if hi == 12 and self.r.random() < 0.04:
+            v = self.r.choice([100, 255, 1024, 65536, 10 ** 6, 2 ** 31, 10 ** 12])
         t = str(v)
         if self.r.random() < 0.05:
             t = "0" + t
@@ -334,7 +344,7 @@ class Gen:
         r = self.r.random()
         if self.allow_strbool and r < 0.08:
             self.features.add("str")
-            return ('"%s"' % self.r.choice(["a", "hello", "fock", "x y", "", "p0x", "1+2"]), "str")
+            return ('"%s"' % self.r.choice(["a", "hello", "fock", "x y", "", "p0x", "1+2", "x#y", "True", "{p}", "q0", "é", "a,b", " lead", "[0]", "name"]), "str")
         if self.allow_strbool and r < 0.14:
             self.features.add("bool")
             return (self.r.choice(["True", "False"]), "bool")
